@@ -10,9 +10,15 @@ Shared model library: `MemRegion<T>` of
 * `Region V := BMap V` and one definition per Rust function, mirrored statement by statement
   (`&mut self` ↦ the new region is returned; a `panic!`/failed `assert!` ↦ `none`).
 
-i64 arithmetic is modelled in `Int`. The model therefore describes the code under the
-NO-OVERFLOW PRECONDITION: every sum the code computes (`prev_pos + prev_size`,
-`position + size`, `end + elem_size`, `index + offset`, `index + 1`, `index + max(sizes)`) lies in
+i64 arithmetic is modelled in `Int`. Interval ends (`prev_pos + prev_size`, `position + size`,
+`end + elem_size`, `index + max(sizes)`) are computed by the code in i128 (`interval_end`, since the
+repair of the position-overflow panic), i.e. exactly as here, and the successor lookup of
+`merge_inner` uses the bound `Excluded(index)` instead of `index + 1`. `BMap.range m lo hi` stands
+for `range(interval_bounds(lo, hi))`, which has no upper bound when `hi > i64::MAX`: the same
+entries on every map whose keys are i64 values (`CweModel.C05.rangeI64_eq`; the literal model of
+that code path is `CweModel.C05.stepI64`, equal to the definitions below by
+`CweModel.C05.stepI64_eq_step`). What is left of the NO-OVERFLOW PRECONDITION: position arguments
+and stored positions are i64 values, and `index + offset` (`add_offset_to_all_indices`) lies in
 `[-2^63, 2^63)`; `Bounded`/`i64Min` below are used where the code mentions `i64::MIN`.
 
 Core Lean only (no Std/Batteries/Mathlib): this file is linked into model drivers.
